@@ -377,6 +377,7 @@ func TestVerif_C04_CheckingDeadline(t *testing.T) {
 		controlling := rapid.Bool().Draw(rt, "controlling")
 		dt := time.Duration(rapid.IntRange(0, 60).Draw(rt, "dtMs")) * time.Millisecond
 		ft := time.Duration(rapid.SampledFrom([]int{0, 30, 45, 60}).Draw(rt, "ftMs")) * time.Millisecond
+		withRestart := rapid.Bool().Draw(rt, "restartAfterDeadlineFailure")
 		cfg := simAgentConfig{controlling: controlling, maxBinding: 7, disconnected: dt, failed: ft, keepalive: 0, explicitTimeout: true}
 		s, err := newSoloSim(cfg, []duoSockSpec{{Kind: simKindHost}}, []soloEpSpec{{Typ: CandidateTypeHost}})
 		if err != nil {
@@ -391,8 +392,8 @@ func TestVerif_C04_CheckingDeadline(t *testing.T) {
 		t0 := time.Now()
 		s.ag.tick() // the deadline counts from the first tick in Checking
 		t0b := time.Now()
-		desc := fmt.Sprintf("controlling=%v dt=%s ft=%s", controlling, dt, ft)
-		st.Record(vfHashStr(desc), ft != 0, fmt.Sprintf("ft0:%v", ft == 0))
+		desc := fmt.Sprintf("controlling=%v dt=%s ft=%s restart=%v", controlling, dt, ft, withRestart)
+		st.Record(vfHashStr(desc), ft != 0, fmt.Sprintf("ft0:%v", ft == 0), fmt.Sprintf("restart:%v", withRestart))
 		if st.WantSample() {
 			st.Sample(func() string { return desc })
 		}
@@ -420,6 +421,32 @@ func TestVerif_C04_CheckingDeadline(t *testing.T) {
 		s.ag.tick()
 		if got := s.ag.state(); got != ConnectionStateFailed {
 			st.Fail(rt, "C04/deadline/not-failed-after-deadline", "%s: state %s %s after the first tick (deadline %s)", desc, got, time.Since(t0b), deadline)
+		}
+		if !withRestart {
+			return
+		}
+		// Restart from the deadline failure: the checking deadline starts anew
+		if err := s.ag.restart(); err != nil {
+			rt.Fatalf("harness: restart: %v", err)
+		}
+		if _, err := s.ag.addLocal(0, false, simKindHost, true); err != nil {
+			rt.Fatalf("harness: %v", err)
+		}
+		_ = s.ag.a.SetRemoteCredentials(s.peer.ufrag, s.peer.pwd)
+		_ = s.ag.addRemoteSync(s.epCandidate(0, soloEpSpec{Typ: CandidateTypeHost}))
+		if got := s.ag.state(); got != ConnectionStateChecking {
+			st.Fail(rt, "C04/deadline/restart-not-checking", "%s: state %s after Restart from Failed", desc, got)
+		}
+		r0 := time.Now()
+		s.ag.tick()
+		if got := s.ag.state(); got != ConnectionStateChecking && time.Since(r0) < deadline-5*time.Millisecond {
+			st.Fail(rt, "C04/deadline/early-failure-after-restart", "%s: %s on the first tick %s after Restart (deadline %s starts anew)", desc, got, time.Since(r0), deadline)
+		}
+		time.Sleep(deadline + 25*time.Millisecond - time.Since(r0))
+		s.ag.tick()
+		s.ag.tick()
+		if got := s.ag.state(); got != ConnectionStateFailed {
+			st.Fail(rt, "C04/deadline/not-failed-after-deadline", "%s: state %s %s after Restart (deadline %s)", desc, got, time.Since(r0), deadline)
 		}
 	})
 }
